@@ -17,6 +17,9 @@ from minecraft.networking.types.basic import VarInt, VarLong
 from minecraft.networking.packets import Packet
 
 from pyvc.harness import native_call, Sink
+from pyvc.driver import Unit
+from pyvc.values import SBytes
+from minecraft.networking.connection import PacketReactor
 from spec import wire
 from . import c01, c03
 
@@ -121,6 +124,77 @@ class PrefixReplay(c01.Segmentation):
         return None
 
 
+class PollFails(Unit):
+    """read_packet on a stream that cannot be polled: when select.select raises (ValueError for a descriptor number beyond
+    FD_SETSIZE or a closed stream, OSError for a bad descriptor), the failure leaves read_packet as an exception (this one or one raised in its place).  Returning
+    None means "nothing to read yet", on which the networking thread polls again: for a failure that repeats on every call that
+    is a busy loop in which a server that stopped is never noticed (seeded change C15-r16)."""
+    prop = 'C15'
+    name = 'C15.poll-failure-is-reported'
+    int_mode = 'int'
+    functions = ('minecraft.networking.connection.PacketReactor.read_packet',)
+
+    def setup(self, I):
+        unit = self
+
+        def sel(I_, r, w, x, timeout=None):
+            unit.polls += 1
+            raise unit.failure
+        I.override(select.select, sel, kind='assumed')
+
+    def run(self, I):
+        E = I.E
+        self.polls = 0
+        self.failure = (ValueError('filedescriptor out of range in select()'), ValueError('I/O operation on closed file'),
+                        OSError(9, 'Bad file descriptor'))[E.fork(3, 'poll-failure')]
+        reactor = object.__new__(PacketReactor)
+        conn = c01.harness_connection()
+        conn.options.compression_enabled = bool(E.fork(2, 'compression'))
+        conn.options.compression_threshold = 256
+        reactor.__dict__.update(connection=conn, clientbound_packets={})
+        try:
+            r = I.call(c01.raw(PacketReactor, 'read_packet'), reactor, c01.SymBytesIO(SBytes.of(b'')), 0.05)
+            outcome = ('returned', r)
+        except c01.PyRaise as e:
+            outcome = ('raised', e.exc)
+        E.check('poll.failure-propagates', outcome[0] == 'raised' and isinstance(outcome[1], Exception),
+                note='select failed with %r; read_packet %s %r' % (self.failure, outcome[0], outcome[1]))
+        E.check('poll.once', self.polls == 1)
+        return None
+
+    def replay(self, model, label):
+        return replay_poll_fails()
+
+    def bounded(self, rng, tier):
+        rp = replay_poll_fails()
+        return dict(name='C15.poll-failure.live', evaluations=rp['n'], bound='3 poll failures on the real read_packet',
+                    failures=[dict(call=rp['call'], observed=rp['observed'], witness='poll-fails')] if rp['confirmed'] else [])
+
+
+def replay_poll_fails():
+    import io
+    from minecraft.networking.connection import Connection, PacketReactor
+    n = 0
+    orig = select.select
+    try:
+        for exc in (ValueError('filedescriptor out of range in select()'), ValueError('I/O operation on closed file'),
+                    OSError(9, 'Bad file descriptor')):
+            n += 1
+
+            def failing(r, w, x, t=None, exc=exc):
+                raise exc
+            select.select = failing
+            c = Connection('h', 1, username='u', allowed_versions={757})
+            k, v = native_call(PacketReactor(c).read_packet, io.BytesIO(b''), 0.05)
+            if k != 'raise' or not isinstance(v, Exception):      # which exception is not part of the property
+                return dict(confirmed=True, n=n, call='read_packet(stream, 0.05) while select.select raises %r' % (exc,),
+                            observed='read_packet %s %r: the networking thread treats this as "nothing to read yet" and polls again, '
+                                     'forever' % ('returned' if k == 'ok' else k, v))
+    finally:
+        select.select = orig
+    return dict(confirmed=False, n=n, call='read_packet on a stream that cannot be polled', observed='conforms')
+
+
 def _own_units(tier):
     us = [
         _as_c15(c03.ReadArbitrary(VarInt), 'C15.varint.eof.VarInt'),
@@ -129,6 +203,7 @@ def _own_units(tier):
         _as_c15(c01.CipherFile(), 'C15.cipher.eof'),
         _as_c15(c01.ReadFrame(), 'C15.whole-frames-only'),
         _as_c15(c01.SizeCheck(), 'C15.size-check'),
+        PollFails(),
     ]
     from . import c11
     us.append(_as_c15(c11.RunLoop(), 'C15.run-loop.propagates'))   # the stop of the server becomes an exception of read_packet: _run must let it out (no swallow, no spin)
